@@ -19,6 +19,9 @@ D = {
  'D1': "D1: a committer that applied its own commit locally (merge_pending_commit takes no rollback snapshot) cannot roll back when the better competing commit arrives; it stays on the losing branch",
  'D2': "D2: an event refused once is blocked for ever by its Failed/EpochInvalidated dedup record (commit ahead of its predecessor, commit ahead of the proposal it references, proposal that arrived after the member moved on), so the member never advances",
  'D10': "D10: a member removed by a losing commit that processed its removal cannot follow the winning commit (use after eviction); its group stays Inactive although it is still a member",
+ 'D5': "D5: every admin operation (add_members, remove_members, update_group_data, self_update) is built with OpenMLS helpers that consume the whole pending-proposal store, so a roster change merely proposed by somebody else (Add or Remove(other) from a non-admin or another admin) is carried out by an unrelated admin operation",
+ 'D6': "D6: process_welcome writes the group row (state Pending, epoch, name, ids, relays from the invitation) before any consent; an invitation for an MLS group id the user already holds (an attacker-made group reusing the id, or another invitation to the same group) overwrites the record of an Active group, and a later accept leaves a record that does not describe the MLS state",
+ 'D16': "D16: accept_welcome / decline_welcome do not look at the welcome's or the group's state: accepting an invitation again rebuilds the MLS group from the Welcome (replace_old_group) and throws the current epoch away; declining sets an Active group Inactive",
  'D8': "D8: after a restart the snapshot queue rebuilt from storage has lost the applied commits' timestamps (applied_commit_ts = 0), is_better_candidate answers false, and a commit race can no longer be resolved by rollback: the restarted client refuses the better commit that the never-restarted one applies",
  'D11': "D11: an invitation that was already accepted (or one of its sibling rumors carrying the same MLS Welcome) is processed again when it arrives under another wrapper id: process_welcome upserts the group row, so an Active or evicted (Inactive) group is reset to Pending and can be re-activated at its join epoch by accept_welcome",
  'D14': "D14: a Nostr-group-id rotation applied on a losing branch makes the winning commit (tagged with the id in force when it was created) unroutable: GroupNotFound, recorded Failed, member stays on the losing branch",
@@ -31,6 +34,14 @@ def label(s):
         if 'snapshot-at-fork=no,on-branch-of=own-commit' in s: return 'D1'
         if 'quiescent-behind' in s and 'off-spine-depth=0,needs=commit.other:dedup=failed:redelivery=Unprocessable' in s: return 'D2'
     if s.startswith('C03|reactivated-after-eviction:pending|via=process_welcome(foreign-invitation)->Welcome'): return 'D11'
+    if s.startswith('C05|admin-operation-carried-out-foreign-proposal|'): return 'D5'
+    if s.startswith('C16|active-group-disturbed-by-process|invitation=forged'): return 'D6'
+    if s.startswith('C16|active-group-disturbed-by-process|'): return 'D11'
+    if s.startswith('C16|active-group-disturbed-by-accept|') or s.startswith('C16|active-group-disturbed-by-decline|'): return 'D16'
+    if s.startswith('C16|joiner-record-differs-from-mls-state|') or s.startswith('C16|joiner-state-differs-from-inviter|') or s.startswith('C16|no-pending-key-rotation-after-join|'):
+        # only outside clean joins: another invitation (forged, replayed, older) clobbered the record first, or an already handled invitation was accepted again
+        return 'D6' if 'recipient=pending' in s else 'D16'
+    if s.startswith('C16|later-events-processed-differently-after-invitation|'): return 'D6'
     if s.startswith('C11|'):
         if 'never-restarted=Commit|restarted=Unprocessable|restart-after-competitor-applied' in s: return 'D8'
         if s.startswith('C11|obs-differs|deliver(commit.') and s.endswith('|restart-after-competitor-applied'): return 'D8'
